@@ -1011,6 +1011,23 @@ func (ctx Ctx) isNilCompareExpr(e *ast.BinaryExpr) bool {
 	return ctx.info.Types[e.Y].IsNil()
 }
 
+// nonNegative recognizes signed expressions that cannot be negative: len,
+// cap and constants
+func (ctx Ctx) nonNegative(e ast.Expr) bool {
+	if v := ctx.info.Types[e].Value; v != nil {
+		return constant.Sign(v) >= 0
+	}
+	switch e := e.(type) {
+	case *ast.ParenExpr:
+		return ctx.nonNegative(e.X)
+	case *ast.CallExpr:
+		if f, ok := e.Fun.(*ast.Ident); ok && ctx.goBuiltin(f) {
+			return f.Name == "len" || f.Name == "cap"
+		}
+	}
+	return false
+}
+
 func (ctx Ctx) binExpr(e *ast.BinaryExpr) coq.Expr {
 	op, ok := map[token.Token]coq.BinOp{
 		token.LSS:  coq.OpLessThan,
@@ -1038,6 +1055,20 @@ func (ctx Ctx) binExpr(e *ast.BinaryExpr) coq.Expr {
 			op = coq.OpPlus
 		}
 		ok = true
+	}
+	switch e.Op {
+	case token.LSS, token.GTR, token.LEQ, token.GEQ, token.QUO, token.REM, token.SHR:
+		// these differ between signed and unsigned words, and GooseLang
+		// only has the unsigned ones (and no order on strings)
+		if b, isBasic := ctx.typeOf(e.X).Underlying().(*types.Basic); isBasic && ctx.info.Types[e].Value == nil {
+			if b.Info()&types.IsInteger != 0 && b.Info()&(types.IsUnsigned|types.IsUntyped) == 0 &&
+				!(ctx.nonNegative(e.X) && ctx.nonNegative(e.Y)) {
+				ctx.unsupported(e, "signed %v (integers are unsigned in GooseLang)", e.Op)
+			}
+			if b.Info()&types.IsString != 0 && e.Op != token.QUO && e.Op != token.REM && e.Op != token.SHR {
+				ctx.unsupported(e, "%v on strings", e.Op)
+			}
+		}
 	}
 	if ok {
 		expr := coq.BinaryExpr{
